@@ -531,16 +531,19 @@ def replay_sequential(payload):
 
 
 def racing_lock_creation():
-    """Two first-time creators with a scheduling point inside every threading.Lock() made while a constructor runs: a guard
-    whose lock is made on demand lets each of them make (and hold) its own lock.  With a lock made once at class definition
-    no Lock() is created during construction and the scenario is the plain race."""
+    """Two first-time creators, with the schedule that a guard lock made on demand needs in order to fail: thread X is held
+    inside the creation of its lock; thread Y makes its own lock, enters the guard and is held just before it records itself
+    as the owner; X then finishes - with a lock of its own - and claims; Y claims too.  The scheduling points are the calls
+    of threading.Lock() and threading.get_ident() made by the store module while a constructor runs.  With one lock made at
+    class definition no Lock() is created during construction, nobody is held, and the scenario is the plain race."""
     import threading
     import AEIC.trajectories.store as store_mod
     from AEIC.trajectories.store import TrajectoryStore
     TrajectoryStore.active_in_thread = None
-    real_lock = threading.Lock
-    barrier = threading.Barrier(2)
-    made = []
+    real_lock, real_ident = threading.Lock, threading.get_ident
+    state = dict(x=None, locks=0)
+    y_in_guard, x_done = threading.Event(), threading.Event()
+    meta = real_lock()
 
     class ThreadingProxy:
         def __getattr__(self, name):
@@ -548,12 +551,22 @@ def racing_lock_creation():
 
         @staticmethod
         def Lock():
-            made.append(threading.get_ident())
-            try:
-                barrier.wait(timeout=3)       # both racers are inside "make the lock" at the same time
-            except threading.BrokenBarrierError:
-                pass
+            with meta:
+                state['locks'] += 1
+                first = state['x'] is None
+                if first:
+                    state['x'] = real_ident()
+            if first:
+                y_in_guard.wait(3)            # X is held inside "make the lock" until Y is about to claim
             return real_lock()
+
+        @staticmethod
+        def get_ident():
+            me = real_ident()
+            if state['x'] is not None and me != state['x'] and not y_in_guard.is_set():
+                y_in_guard.set()              # Y is inside the guard, about to record itself: let X finish first
+                x_done.wait(3)
+            return me
     results = {}
     hold = threading.Event()
 
@@ -561,20 +574,32 @@ def racing_lock_creation():
         try:
             ts = TrajectoryStore.create()
             results[name] = 'created'
-            hold.wait(5)
-            ts.close()
-        except RuntimeError as e:
+        except RuntimeError:
             results[name] = 'refused'
+            ts = None
         except Exception as e:   # noqa
             results[name] = f'{type(e).__name__}: {e}'
+            ts = None
+        if real_ident() == state['x']:
+            x_done.set()
+        hold.wait(8)
+        if ts is not None:
+            try:
+                ts.close()
+            except Exception:   # noqa
+                pass
     saved = store_mod.threading
     store_mod.threading = ThreadingProxy()
     try:
         ths = [threading.Thread(target=racer, args=(n,)) for n in ('A', 'B')]
-        for t in ths:
-            t.start()
+        ths[0].start()
         import time
-        time.sleep(4)
+        time.sleep(0.3)
+        ths[1].start()
+        time.sleep(0.5)
+        deadline = time.time() + 8
+        while len(results) < 2 and time.time() < deadline:
+            time.sleep(0.05)
         hold.set()
         for t in ths:
             t.join(10)
@@ -582,7 +607,8 @@ def racing_lock_creation():
         store_mod.threading = saved
         TrajectoryStore.active_in_thread = None
     if list(results.values()).count('created') > 1:
-        return [f'two threads racing for their first store both created one (each made its own guard lock: Lock() was called {len(made)} times during construction): {results}']
+        return [f'two threads racing for their first store both created one (each held a guard lock of its own: threading.Lock() was called '
+                f'{state["locks"]} times while the constructors ran): {results}']
     return []
 
 
